@@ -307,7 +307,7 @@ PROPS["C01"] = {
               "poll_ready/start_send/poll_flush, ALL Ready/Pending outcomes: every healthy sink holds exactly the items sent, in order, once; "
               "flush Ready => flushed. Layer T: the real pubsub::Topic::poll source with 1-2 subscribers, 1-2 publishers, <=3 messages, 3-5 polls, "
               "ALL registration orders / arrival moments / ready-pending outcomes: items reach the fan-out in exactly the order the publisher "
-              "streams yielded them, once, unchanged, at most one held back; unflushed data is never left without an armed flush; once the channel "
+              "streams yielded them, once, unchanged; unflushed data is never left without an armed flush; once the channel "
               "closes with subscribers accepting, nothing taken from a publisher is left undelivered or unflushed. Exact within these bounds."),
     "note": NOTE_T + " Not covered: routing between different topics (HashMap<TopicName,..> lookup inside async handle_stream over QUIC; key injectivity is C07); more than 2 subscribers on the real FanoutMany.",
     "obligations": FANOUT_S + PUBSUB_T + PUBSUB_SHUTDOWN_T[:1],
